@@ -12,19 +12,20 @@ import (
 // verifPipe is a thrift.TTransport whose read side is fed by the harness (the
 // adversarial peer) and whose write side records what was sent.
 type verifPipe struct {
-	in       chan []byte // chunks delivered by the peer; closed = EOF
-	cur      []byte
-	open     bool
-	written  [][]byte
-	flushes  int
-	readErr  error // delivered instead of EOF when the feed is closed
-	failOpen bool
-	closes   int
-	opens    int
-	sent     chan struct{} // one token per Flush: the peer has received a request
-	inClosed bool
+	in        chan []byte // chunks delivered by the peer; closed = EOF
+	cur       []byte
+	open      bool
+	written   [][]byte
+	flushes   int
+	readErr   error // delivered instead of EOF when the feed is closed
+	failOpen  bool
+	closes    int
+	opens     int
+	sent      chan struct{} // one token per Flush: the peer has received a request
+	inClosed  bool
 	failClose bool
-	failOpens int // the next n Open calls fail
+	failOpens int  // the next n Open calls fail
+	coalesce  bool // a Read returns everything the peer has sent so far (several frames in one segment)
 }
 
 func newVerifPipe() *verifPipe {
@@ -54,6 +55,25 @@ func (p *verifPipe) Read(buf []byte) (int, error) {
 		}
 		p.cur = chunk
 	}
+	if p.coalesce {
+		// like a socket: whatever has arrived is handed over together, up to len(buf)
+		for len(p.cur) < len(buf) {
+			select {
+			case chunk, ok := <-p.in:
+				if !ok {
+					// the end of the stream is reported by the next Read
+					p.in = make(chan []byte)
+					close(p.in)
+					goto done
+				}
+				p.cur = append(append([]byte{}, p.cur...), chunk...)
+				continue
+			default:
+			}
+			break
+		}
+	}
+done:
 	n := copy(buf, p.cur)
 	p.cur = p.cur[n:]
 	return n, nil
@@ -72,8 +92,8 @@ func (p *verifPipe) Flush(ctx context.Context) error {
 	}
 	return nil
 }
-func (p *verifPipe) RemainingBytes() uint64          { return ^uint64(0) }
-func (p *verifPipe) IsOpen() bool                    { return p.open }
+func (p *verifPipe) RemainingBytes() uint64 { return ^uint64(0) }
+func (p *verifPipe) IsOpen() bool           { return p.open }
 func (p *verifPipe) Close() error {
 	p.closes++
 	if p.failClose {
